@@ -87,6 +87,9 @@ func tagItem(t int) aval {
 	return &aitem{tag: t}
 }
 
+// remIsSet: the memItems type keeps its removed keys as a set (map) instead of a list.
+var remIsSet bool
+
 func newMemItems(o overlay) *astruct {
 	mk := func(t int) *amap {
 		if t < 0 {
@@ -97,6 +100,13 @@ func newMemItems(o overlay) *astruct {
 	var rem []aval
 	for i := 0; i < o.rem; i++ {
 		rem = append(rem, aKey{true})
+	}
+	if remIsSet {
+		set := &amap{}
+		if o.rem > 0 {
+			set = &amap{has: true, v: aKey{true}}
+		}
+		return &astruct{name: "memItems", fields: []*acell{{v: mk(o.got)}, {v: mk(o.upd)}, {v: set}}}
 	}
 	return &astruct{name: "memItems", fields: []*acell{{v: mk(o.got)}, {v: mk(o.upd)}, {v: aSlice{rem}}}}
 }
@@ -125,6 +135,10 @@ func readMemItems(s *astruct) (overlay, error) {
 		return o, err
 	}
 	switch r := s.fields[2].v.(type) {
+	case *amap:
+		if r.has {
+			o.rem = 1
+		}
 	case aSlice:
 		o.rem = len(r.elems)
 	case aNil:
@@ -156,6 +170,12 @@ func newMachine(w *World, s ledgerState, fl, sl, mi *types.Struct) (*machine, er
 	}
 	if idx(mi, "gotItems") != 0 || idx(mi, "updatedItems") != 1 || idx(mi, "removedKeys") != 2 || mi.NumFields() != 3 {
 		return nil, fmt.Errorf("memItems layout changed")
+	}
+	_, isMap := mi.Field(2).Type().Underlying().(*types.Map)
+	if isMap != remIsSet {
+		remIsSet = isMap
+		m.finMI = newMemItems(s.fin)
+		m.memMI = newMemItems(s.mem)
 	}
 	slo := &astruct{name: "SimpleLedger", fields: make([]*acell, sl.NumFields())}
 	for i := range slo.fields {
